@@ -97,6 +97,18 @@ def query_from_ref(rng, ref, kind, refs=None):
             sub2 = [sub2[-1] - x + sub2[0] for x in reversed(sub2)]
         base = (max(q) if q else 0) + rng.randint(2000, 9000)
         q += [base + (p - sub2[0]) for p in sub2]
+    elif kind == 'translocation':
+        # first part from `ref`, second part from ANOTHER contig at a nearby coordinate just behind it (same strand), so that
+        # the two records of the molecule are on different contigs but within maxDifference of each other
+        others = [m[2] for m in (refs or []) if m[2] is not ref] or [ref]
+        other = rng.choice(others)
+        end_coord = sub[-1]
+        cand = [i for i, x in enumerate(other) if x > end_coord]
+        if len(cand) > 12:
+            s2 = cand[0] + rng.randint(0, 3)
+            sub2 = other[s2:s2 + rng.randint(9, 25)]
+            base = (max(q) if q else 0) + rng.randint(2000, 9000)
+            q += [base + (p - sub2[0]) for p in sub2]
     elif kind == 'sandwich':
         # aligned middle with two unaligned flanks of >= 8 labels each: yields two second-pass fragments of one query
         def flank(base):
@@ -382,3 +394,40 @@ def huge_coordinate_case(rng):
         queries.append([j + 1, ql, qp])
         qclass[str(j + 1)] = 'contig-sized'
     return {'refs': refs, 'queries': queries, 'qclass': qclass, 'params': dict(DEFAULTS), 'mode': rng.choice(MODES)}
+
+
+def add_contig_sized_query(rng, case, nlabels=None):
+    """A query of 420-700 labels with one-decimal coordinates cut from the longest reference (extended if necessary)."""
+    ref = max(case['refs'], key=lambda m: len(m[2]))
+    pos = list(ref[2])
+    n = nlabels or rng.randint(420, 700)
+    p = pos[-1]
+    while len(pos) < n + 30:
+        p += 2000 + rng.expovariate(1 / 9000)
+        pos.append(round(p, 1))
+    ref[2] = pos
+    ref[1] = round(pos[-1] + 5000.3, 1)
+    s0 = rng.randint(0, len(pos) - n - 1)
+    sub = pos[s0:s0 + n]
+    q = [(x - sub[0]) * rng.uniform(0.995, 1.005) + rng.gauss(0, 120) for x in sub if rng.random() > 0.05]
+    qp, ql = finish_query(rng, q, off=rng.choice([0.3, 20.5]), trail=rng.choice([0.4, 50.6]))
+    qid = max(m[0] for m in case['queries']) + 1
+    case['queries'].append([qid, ql, qp])
+    case['qclass'][str(qid)] = 'contig-sized'
+    return case
+
+
+def far_reference_case(rng, offset=None, nq=6):
+    """Reference whose labels start beyond 2**24 bp (a window of a long chromosome kept in genome coordinates)."""
+    offset = offset or rng.choice([17000000, 60000000, 150000000]) + rng.randint(0, 999)
+    pos = [round(offset + x, 1) for x in gen_ref(rng, rng.randint(80, 160), mean=9000, mn=2000, decimals=True, repeats=False)]
+    refs = [[1, round(pos[-1] + 5000.5, 1), pos]]
+    queries, qclass = [], {}
+    for j in range(nq):
+        kind = rng.choice(['clean', 'noisy', 'noisy', 'indel'])
+        qp, ql = query_from_ref(rng, pos, kind, refs)
+        queries.append([j + 1, ql, qp])
+        qclass[str(j + 1)] = kind + '@far'
+    P = dict(DEFAULTS)
+    P['d'] = rng.choice([1500, 300, 800])
+    return {'refs': refs, 'queries': queries, 'qclass': qclass, 'params': P, 'mode': rng.choice(MODES)}
